@@ -76,7 +76,7 @@ Record xinv (s : state) : Prop := mkX {
   v_got : forall c v, In v (got (st s c)) -> In (cur (st s c), v, c) (grants s);
   v_st_le : forall t c L, In (t, c, L) (started s) -> t <= cur (st s c);
   v_cand : forall c, role (st s c) = Candidate -> In (cur (st s c), c, log (st s c)) (started s);
-  v_erole : forall t n L, In (t, n, L) (elected s) -> cur (st s n) = t -> role (st s n) = Leader;
+  v_erole : forall t n L, In (t, n, L) (elected s) -> cur (st s n) = t -> role (st s n) <> Candidate;
   v_msg : forall m, In m (appends s) -> exists L, In (rterm m, rldr m, L) (elected s);
   v_ldr : forall l, role (st s l) = Leader ->
             exists Lt, In (cur (st s l), l, Lt) (elected s) /\
@@ -127,5 +127,17 @@ Record xinv (s : state) : Prop := mkX {
 }.
 
 Definition inv (s : state) : Prop := facts s /\ xinv s.
+
+(* durability: what a node committed or acknowledged is in its flushed prefix *)
+Record dinv (s : state) : Prop := mkD {
+  d_fl : forall n, (flushed (st s n) <= length (log (st s n)))%nat;
+  d_cf : forall n, (commit (st s n) <= flushed (st s n))%nat;
+  d_ack : forall tc v i j, In (tc, v, i) (acks s) -> (j <= i)%nat ->
+            (j <= length (log (st s v)))%nat -> term_at (log (st s v)) j = tc ->
+            (j <= flushed (st s v))%nat;
+  (* an unflushed entry was appended by the node itself, as leader of that term *)
+  d_unfl : forall n j e, nth_error (log (st s n)) j = Some e ->
+             (flushed (st s n) <= j)%nat -> exists L, In (eterm e, n, L) (elected s)
+}.
 
 End Defs.
